@@ -61,16 +61,16 @@ Qed.
 
 (* ------------------------------------------------------------------ separators between words *)
 
-Inductive psep := PSp (n : nat) | PBr (tsp k ind : nat).
+Inductive psep := PSp (n : nat) | PBr (tsp : nat) (ks : list nat) (ind : nat).
 
 Definition print_psep (x : psep) : str :=
-  match x with PSp n => sp n | PBr tsp k ind => sp tsp ++ [10] ++ nls k ++ sp ind end.
+  match x with PSp n => sp n | PBr tsp ks ind => sp tsp ++ [10] ++ bl ks ++ sp ind end.
 Definition mean_psep (x : psep) : str :=
-  match x with PSp n => sp n | PBr _ k _ => fold_sep k end.
+  match x with PSp n => sp n | PBr _ ks _ => fold_sep (length ks) end.
 Definition chunks_psep (x : psep) : list str :=
   match x with
   | PSp n => [sp n]
-  | PBr _ k _ => match k with O => [[32]] | _ => repeat [10] k end
+  | PBr _ ks _ => match ks with [] => [[32]] | _ => repeat [10] (length ks) end
   end.
 Definition wf_psep (is_key : bool) (x : psep) : bool :=
   match x with
@@ -83,37 +83,49 @@ Proof. induction k as [|k IH]; [reflexivity|]. cbn [repeat concat]. rewrite IH. 
 
 Lemma concat_chunks_psep x : concat (chunks_psep x) = mean_psep x.
 Proof.
-  destruct x as [n|tsp k ind]; cbn [chunks_psep mean_psep concat]; [apply app_nil_r|].
-  destruct k; [reflexivity|]. rewrite concat_repeat_lf. reflexivity.
+  destruct x as [n|tsp ks ind]; cbn [chunks_psep mean_psep concat]; [apply app_nil_r|].
+  destruct ks; [reflexivity|]. rewrite concat_repeat_lf. reflexivity.
 Qed.
 
 Lemma repeat_snoc {A} (x : A) k : repeat x (S k) = repeat x k ++ [x].
 Proof. induction k as [|k IH]; [reflexivity|]. cbn [repeat app] in *. rewrite <- IH. reflexivity. Qed.
 
 (* the `while stream.peek() in _CHARS_SPACE_NEWLINE:` loop over blank lines and an indentation *)
-Lemma plain_breaks_spec : forall k ind fuel s br c t,
-  mem_N c in_scan_plain_spaces_1 = false ->
-  s_rest s = nls k ++ sp ind ++ c :: t -> (k + ind < fuel)%nat ->
-  plain_breaks_f fuel s br = Ok (after s (nls k ++ sp ind), br ++ repeat [10] k).
+Lemma plain_breaks_peel_sp : forall n f s br X, s_rest s = sp n ++ X ->
+  plain_breaks_f (n + f) s br = plain_breaks_f f (after s (sp n)) br.
 Proof.
-  induction k as [|k IHk].
-  - induction ind as [|ind IHi]; intros fuel s br c t Hc Hr Hf;
-      (destruct fuel as [|f]; [lia|]); cbn [plain_breaks_f nls sp repeat app] in *.
-    + rewrite (peek0 _ _ _ Hr). cbn [bind]. rewrite Hc. rewrite app_nil_r. reflexivity.
-    + rewrite (peek0 _ _ _ Hr). cbn [bind].
-      replace (mem_N 32 in_scan_plain_spaces_1) with true by reflexivity.
-      replace (32 =? c_space) with true by reflexivity.
-      cbn [forward]. rewrite (forward1_step _ _ _ Hr space_nocr). cbn [bind]. rewrite after_cons.
-      apply (IHi f _ br c t Hc); [rewrite rest_step, Hr; reflexivity | lia].
-  - intros ind fuel s br c t Hc Hr Hf. destruct fuel as [|f]; [lia|].
-    cbn [plain_breaks_f]. rewrite nls_S in *. cbn [app] in Hr.
-    rewrite (peek0 _ _ _ Hr). cbn [bind].
+  induction n as [|n IH]; intros f s br X Hr; [reflexivity|].
+  cbn [plus plain_breaks_f]. rewrite sp_S in *. cbn [app] in Hr.
+  rewrite (peek0 _ _ _ Hr). cbn [bind].
+  replace (mem_N 32 in_scan_plain_spaces_1) with true by reflexivity.
+  replace (32 =? c_space) with true by reflexivity.
+  cbn [forward]. rewrite (forward1_step _ _ _ Hr space_nocr). cbn [bind]. rewrite after_cons.
+  apply (IH f _ br X). rewrite rest_step, Hr. reflexivity.
+Qed.
+
+Lemma plain_breaks_spec : forall ks ind fuel s br c t,
+  mem_N c in_scan_plain_spaces_1 = false ->
+  s_rest s = bl ks ++ sp ind ++ c :: t -> (length (bl ks) + ind < fuel)%nat ->
+  plain_breaks_f fuel s br = Ok (after s (bl ks ++ sp ind), br ++ repeat [10] (length ks)).
+Proof.
+  induction ks as [|n ks IH]; intros ind fuel s br c t Hc Hr Hf.
+  - cbn [bl map concat app length repeat] in *. rewrite app_nil_r.
+    replace fuel with (ind + (fuel - ind))%nat by lia.
+    rewrite (plain_breaks_peel_sp ind _ s br _ Hr).
+    destruct (fuel - ind)%nat as [|f] eqn:E; [lia|]. cbn [plain_breaks_f].
+    rewrite (peek_after _ _ _ _ Hr). cbn [bind]. rewrite Hc. reflexivity.
+  - rewrite bl_cons in *. rewrite !app_length in Hf. cbn [length] in Hf.
+    assert (Hr0 : s_rest s = sp n ++ 10 :: (bl ks ++ sp ind ++ c :: t)) by (rewrite Hr, <- !app_assoc; reflexivity).
+    replace fuel with (n + (fuel - n))%nat by (rewrite sp_length in Hf; lia).
+    rewrite (plain_breaks_peel_sp n _ s br _ Hr0).
+    destruct (fuel - n)%nat as [|f] eqn:E; [rewrite sp_length in Hf; lia|]. cbn [plain_breaks_f].
+    pose proof (rest_after _ _ _ Hr0) as Hr1.
+    rewrite (peek0 _ _ _ Hr1). cbn [bind].
     replace (mem_N 10 in_scan_plain_spaces_1) with true by reflexivity.
     replace (10 =? c_space) with false by reflexivity.
-    rewrite (scan_line_break_lf _ _ Hr). cbn [bind].
-    rewrite (IHk ind f _ (br ++ [[10]]) c t Hc); [| apply rest_after; exact Hr | lia].
-    cbn [app]. rewrite after_cons. cbn [after fold_left]. f_equal. f_equal.
-    rewrite <- app_assoc. reflexivity.
+    rewrite (scan_line_break_lf _ _ Hr1). cbn [bind].
+    rewrite (IH ind f _ (br ++ [[10]]) c t Hc); [| apply (rest_after [10]); exact Hr1 | rewrite sp_length in Hf; lia].
+    cbn [length repeat]. rewrite <- !after_app, <- !app_assoc. reflexivity.
 Qed.
 
 (* ------------------------------------------------------------------ one word followed by a separator *)
@@ -123,7 +135,7 @@ Definition sep_ok (is_key : bool) (x : psep) : Prop :=
 
 Lemma wf_psep_ok is_key x : wf_psep is_key x = true -> sep_ok is_key x.
 Proof.
-  destruct x as [n|tsp k ind]; cbn [wf_psep sep_ok].
+  destruct x as [n|tsp ks ind]; cbn [wf_psep sep_ok].
   - destruct n; [discriminate | discriminate].
   - intros H. apply andb_true_iff in H as [H _]. apply negb_true_iff in H. exact H.
 Qed.
@@ -134,7 +146,7 @@ Lemma scan_plain_spaces_sep is_key x s c t :
   scan_plain_spaces s (negb is_key) = Ok (after s (print_psep x), chunks_psep x).
 Proof.
   intros Hok Hc Hr. unfold scan_plain_spaces.
-  destruct x as [n|tsp k ind]; cbn [print_psep sep_ok chunks_psep] in *.
+  destruct x as [n|tsp ks ind]; cbn [print_psep sep_ok chunks_psep] in *.
   - rewrite (count_while_rest (fun ch => ch =? c_space) s (sp n) c t Hr);
       [| apply Forall_sp; reflexivity | charfact].
     cbn [bind]. rewrite sp_length.
@@ -144,7 +156,7 @@ Proof.
     pose proof (prefix_app s (sp n) (c :: t) Hr) as Hp. rewrite sp_length in Hp. rewrite Hp.
     destruct n; [congruence|]. reflexivity.
   - subst is_key. cbn [negb].
-    assert (Hr1 : s_rest s = sp tsp ++ 10 :: nls k ++ sp ind ++ c :: t).
+    assert (Hr1 : s_rest s = sp tsp ++ 10 :: bl ks ++ sp ind ++ c :: t).
     { rewrite Hr. rewrite <- !app_assoc. reflexivity. }
     rewrite (count_while_rest (fun ch => ch =? c_space) s (sp tsp) 10 _ Hr1);
       [| apply Forall_sp; reflexivity | reflexivity].
@@ -154,12 +166,12 @@ Proof.
     replace (mem_N 10 in_scan_plain_spaces_0) with true by reflexivity. cbn [andb].
     pose proof (rest_after _ _ _ Hr1) as Hr2.
     rewrite (scan_line_break_lf _ _ Hr2). cbn [bind].
-    assert (Hr3 : s_rest (after (after s (sp tsp)) [10]) = nls k ++ sp ind ++ c :: t).
+    assert (Hr3 : s_rest (after (after s (sp tsp)) [10]) = bl ks ++ sp ind ++ c :: t).
     { apply rest_after. rewrite Hr2. reflexivity. }
-    rewrite (plain_breaks_spec k ind _ _ [] c t); [| exact Hc | exact Hr3 |].
-    2:{ unfold fuel_of. rewrite Hr3, !app_length, nls_length, sp_length. cbn [length]. lia. }
+    rewrite (plain_breaks_spec ks ind _ _ [] c t); [| exact Hc | exact Hr3 |].
+    2:{ unfold fuel_of. rewrite Hr3, !app_length, sp_length. cbn [length]. lia. }
     cbn [bind]. replace (is_lf [10]) with true by reflexivity. cbn [negb app].
-    rewrite <- !after_app. f_equal. destruct k; reflexivity.
+    rewrite <- !after_app. f_equal. destruct ks; reflexivity.
 Qed.
 
 Lemma plain_word_sep is_key f s chunks spaces w x c t :
@@ -177,7 +189,7 @@ Proof.
   rewrite Hpk. cbn [bind]. replace (c0 =? c_hash) with false by (unfold c_hash; lia).
   (* the separator begins with a space or a line feed *)
   assert (Hsep : exists y t', print_psep x ++ c :: t = y :: t' /\ mem_N y in_scan_plain_scalar_0 = true).
-  { destruct x as [n|tsp k ind]; cbn [print_psep sep_ok] in *.
+  { destruct x as [n|tsp ks ind]; cbn [print_psep sep_ok] in *.
     - destruct n; [congruence|]. rewrite sp_S. cbn [app]. eexists; eexists; split; reflexivity.
     - destruct tsp; [|rewrite sp_S]; cbn [sp repeat app]; eexists; eexists; split; reflexivity. }
   destruct Hsep as [y [t' [Hy Hy0]]].
@@ -191,7 +203,7 @@ Proof.
   pose proof (rest_after _ _ _ Hr) as Hr1.
   rewrite (scan_plain_spaces_sep is_key x _ c _ Hx Hc Hr1). cbn [bind].
   assert (Hne : exists z zs, chunks_psep x = z :: zs).
-  { destruct x as [n|tsp k ind]; cbn [chunks_psep]; [eauto|]. destruct k; cbn [repeat]; eauto. }
+  { destruct x as [n|tsp ks ind]; cbn [chunks_psep]; [eauto|]. destruct ks; cbn [repeat length]; eauto. }
   destruct Hne as [z [zs Hz]]. rewrite Hz.
   rewrite (peek_after _ _ _ _ Hr1). cbn [bind].
   rewrite <- Hz, <- after_app. reflexivity.
@@ -211,9 +223,9 @@ Proof.
   replace (c2 =? c_hash) with false by (unfold c_hash; lia). cbn [orb].
   assert (Hcol : (s_col (after s (w ++ print_psep x)) <? (if is_key then 0 else 1)) = false).
   { destruct is_key; [lia|]. rewrite after_app.
-    destruct x as [n|tsp k ind]; cbn [print_psep wf_psep] in *.
+    destruct x as [n|tsp ks ind]; cbn [print_psep wf_psep] in *.
     - rewrite (col_after _ _ (sp_colc n)), sp_length. destruct n; [discriminate|]. lia.
-    - rewrite (col_after_nls _ (sp tsp) k (sp ind) (sp_colc ind)), sp_length.
+    - rewrite (col_after_bl _ (sp tsp) ks (sp ind) (sp_colc ind)), sp_length.
       destruct ind; [discriminate|]. lia. }
   rewrite Hcol. reflexivity.
 Qed.
@@ -243,7 +255,8 @@ Proof.
     pose proof (rest_after _ _ _ Hr) as Hr1.
     unfold scan_plain_spaces. rewrite Hr1. cbn [count_while].
     replace (58 =? c_space) with false by reflexivity. cbn [bind forward].
-    rewrite (peek0 _ _ _ Hr1). cbn [bind negb andb]. unfold prefix. cbn [firstn nonempty]. reflexivity.
+    rewrite (peek0 _ _ _ Hr1). cbn [bind negb andb]. unfold prefix. cbn [firstn nonempty bind].
+    rewrite (peek0 _ _ _ Hr1). reflexivity.
   - rewrite (plain_word_sep true (S f) s chunks spaces w (PSp (S ksp)) 58 (x :: t) Hw);
       [| cbn; lia | reflexivity | exact Hr].
     replace (58 =? c_hash) with false by reflexivity. cbn [orb].
@@ -273,17 +286,17 @@ Qed.
 (* value: the last word, spaces, the line break, blank lines, then a line that starts at column 0 *)
 Lemma plain_last_break f s chunks spaces w tsp trail c t :
   wf_word w = true -> line_start c ->
-  s_rest s = w ++ (sp tsp ++ [10] ++ nls trail) ++ c :: t ->
+  s_rest s = w ++ (sp tsp ++ [10] ++ bl trail) ++ c :: t ->
   plain_scalar_f (S f) false s chunks spaces =
-  Ok (after s (w ++ sp tsp ++ [10] ++ nls trail), chunks ++ spaces ++ [w]).
+  Ok (after s (w ++ sp tsp ++ [10] ++ bl trail), chunks ++ spaces ++ [w]).
 Proof.
   intros Hw Hc Hr.
   assert (Hr' : s_rest s = w ++ print_psep (PBr tsp trail 0) ++ c :: t).
   { rewrite Hr. cbn [print_psep sp repeat]. rewrite !app_nil_r. reflexivity. }
   rewrite (plain_word_sep false f s chunks spaces w (PBr tsp trail 0) c t Hw); [| reflexivity | exact Hc | exact Hr'].
   cbn [print_psep sp repeat]. rewrite !app_nil_r.
-  assert (Hcol : s_col (after s (w ++ sp tsp ++ [10] ++ nls trail)) = 0).
-  { rewrite after_app. pose proof (col_after_nls (after s w) (sp tsp) trail [] (Forall_nil _)) as H.
+  assert (Hcol : s_col (after s (w ++ sp tsp ++ [10] ++ bl trail)) = 0).
+  { rewrite after_app. pose proof (col_after_bl (after s w) (sp tsp) trail [] (Forall_nil _)) as H.
     rewrite !app_nil_r in H. exact H. }
   rewrite Hcol. replace (0 <? 1) with true by reflexivity. rewrite orb_true_r. reflexivity.
 Qed.
@@ -351,7 +364,7 @@ Lemma tailspec_comment tsp t f : tsp <> O -> tailspec false (S f) (sp tsp ++ 35 
 Proof. intros H s chunks spaces w Hw Hr. eapply plain_last_comment; eassumption. Qed.
 
 Lemma tailspec_break tsp trail c t f : line_start c ->
-  tailspec false (S f) ((sp tsp ++ [10] ++ nls trail) ++ c :: t) (sp tsp ++ [10] ++ nls trail).
+  tailspec false (S f) ((sp tsp ++ [10] ++ bl trail) ++ c :: t) (sp tsp ++ [10] ++ bl trail).
 Proof. intros H s chunks spaces w Hw Hr. eapply plain_last_break; eassumption. Qed.
 
 (* _scan_plain_scalar on a whole printed plain scalar *)
@@ -377,7 +390,7 @@ Qed.
 
 Definition flat_of_pline (l : pline) : flat := map (fun '(n, w) => (PSp n, w)) (pl_more l).
 
-Definition flat_of_plain (l0 : pline) (more : list (nat * nat * nat * pline)) : flat :=
+Definition flat_of_plain (l0 : pline) (more : list (nat * list nat * nat * pline)) : flat :=
   flat_of_pline l0 ++
   flat_map (fun '(tsp, k, ind, pl) => (PBr tsp k ind, pl_first pl) :: flat_of_pline pl) more.
 
